@@ -13,7 +13,7 @@ import re
 
 from hypothesis import strategies as st
 
-from vf.common import call_sut, run_given, shard_seed
+from vf.common import CaseTimeout, call_sut, run_given, shard_seed, watchdog
 from vf.gen import patterns as P
 from vf.ref import regex as R
 
@@ -22,12 +22,15 @@ LEVEL = "exploration"
 RULE = (
     "pattern trees over atoms a,b,c with cat/alt/opt/star/plus enumerated by node count (quick <= 5: 1731 trees, "
     "thorough <= 6: 10560) x every sequence over {a,b,c} up to length 5 (quick) / 7 (thorough), each pair evaluated "
-    "through match, nfa_match and starts_with; plus Hypothesis trees (<= 8 leaves) x sequences (<= 20). "
+    "through match, nfa_match and starts_with; plus a 'spine' family (first item followed by 2..4 small items, the shape "
+    "of the shipped header patterns; quick: a quarter of the 2- and 3-item spines) compiled with the state counter at 1; "
+    "plus Hypothesis trees (<= 8 leaves) x sequences (<= 20). "
     "Non-trivial = the tree nests a repetition/optional inside a repetition or uses >= 3 distinct operators; "
     "distinct by (tree, sequence) - enumeration visits each pair once, generated pairs are de-duplicated by digest"
 )
 ASSUMPTIONS = [
     "atoms are plain strings, wrapped by the engine into Identity predicates (pairwise disjoint unless equal)",
+    "the engine's global state counter (State._id) is set to drawn values, including 1 as the project's own tests do, before a pattern is built",
     "for sequences longer than 3 the NFA/DFA of a tree is built once and reused across sequences "
     "(matcher.expression_to_nfa / nfa_to_dfa memoised per tree); sequences up to length 3 go through the unmodified entry points",
 ]
@@ -109,8 +112,17 @@ def _msg(tree, seq, what):
     return f"pattern {P.show(tree)}  sequence {''.join(seq)!r}: {what}"
 
 
+def reset_state_counter(value=1):
+    """State._id is process-global state of the engine (the project's own tests reset it to 1); results must not depend on it."""
+    from codelimit.common.gsm.automata.State import State
+
+    State._id = value
+
+
 def run_case(case):
     tree = P.from_json(case["tree"])
+    if case.get("state_id") is not None:
+        reset_state_counter(case["state_id"])
     r = call_sut(P.to_expr, tree)
     if r[0] == "exc":
         return (f"build:{r[1]}", _msg(tree, case["seq"], r[2]))
@@ -150,12 +162,14 @@ def enum_trees(col, sizes, part, nparts, max_len, selftest=False):
     short = [s for s in P.sequences(P.ATOMS, min(3, max_len))]
     long = [s for s in P.sequences(P.ATOMS, max_len) if len(s) > 3]
     idx = 0
+    hangs = 0
     for size in sizes:
         for tree in P.trees_of_size(size):
             idx += 1
             if idx % nparts != part:
                 continue
             nt = P.nontrivial(tree)
+            reset_state_counter(1 if idx % 2 else 1 + idx % 97)
             r = call_sut(P.to_expr, tree)
             if r[0] == "exc":
                 col.fail({"tree": P.to_json(tree), "seq": ""}, f"build:{r[1]}", r[2])
@@ -163,19 +177,27 @@ def enum_trees(col, sizes, part, nparts, max_len, selftest=False):
                 continue
             expr = r[1]
             failed = False
-            for s in short:
-                res = check_pair(tree, expr, s, m)
-                if res:
-                    col.fail({"tree": P.to_json(tree), "seq": "".join(s)}, res[0], res[1])
-                    failed = True
-                    break
-            if not failed and long:
-                with BuildMemo():
-                    for s in long:
+            try:
+                with watchdog(120):
+                    for s in short:
                         res = check_pair(tree, expr, s, m)
                         if res:
                             col.fail({"tree": P.to_json(tree), "seq": "".join(s)}, res[0], res[1])
+                            failed = True
                             break
+                    if not failed and long:
+                        with BuildMemo():
+                            for s in long:
+                                res = check_pair(tree, expr, s, m)
+                                if res:
+                                    col.fail({"tree": P.to_json(tree), "seq": "".join(s)}, res[0], res[1])
+                                    break
+            except CaseTimeout:
+                col.fail({"tree": P.to_json(tree), "seq": ""}, "hang", f"pattern {P.show(tree)}: building / matching did not finish within 120 s")
+                hangs += 1
+                if hangs >= 3:
+                    col.inconclusive.append("enumeration stopped after 3 hanging patterns (each is reported)")
+                    return
             n = len(short) + len(long)
             col.bulk(n, n if nt else 0)
             col.label(f"size:{size}")
@@ -185,15 +207,64 @@ def enum_trees(col, sizes, part, nparts, max_len, selftest=False):
                     col.sample({"tree": P.show(tree), "sequences": f"all {n} sequences up to length {max_len}"}, force=len(col.samples) < 3)
 
 
+def spine_trees(ks, stride, offset):
+    """Header-like patterns: a first item followed by a concatenation of k small items (the shape of every shipped
+    language pattern), each compiled with the global state counter at 1."""
+    from itertools import product
+
+    atoms = [("sym", a) for a in P.ATOMS]
+    small = atoms + [(op, x) for op in ("opt", "star", "plus") for x in atoms] + [("alt", x, y) for x in atoms for y in atoms if x != y] + [("star", ("opt", x)) for x in atoms]
+    firsts = atoms + [(op, x) for op in ("opt", "star", "plus") for x in atoms]
+    i = 0
+    for k in ks:
+        for first in firsts:
+            for rest in product(small, repeat=k):
+                i += 1
+                if i % stride != offset:
+                    continue
+                items = [first] + list(rest)
+                t = items[-1]
+                for it in reversed(items[:-1]):
+                    t = ("cat", it, t)
+                yield t
+
+
+def enum_spines(col, ks, stride, offset, max_len):
+    m = _entry_points()
+    seqs = list(P.sequences(P.ATOMS, max_len))
+    n_trees = 0
+    for tree in spine_trees(ks, stride, offset):
+        n_trees += 1
+        reset_state_counter(1)
+        r = call_sut(P.to_expr, tree)
+        if r[0] == "exc":
+            col.fail({"tree": P.to_json(tree), "seq": "", "state_id": 1}, f"build:{r[1]}", r[2])
+            continue
+        try:
+            with watchdog(120), BuildMemo():
+                for s in seqs:
+                    res = check_pair(tree, r[1], s, m)
+                    if res:
+                        col.fail({"tree": P.to_json(tree), "seq": "".join(s), "state_id": 1}, res[0], res[1])
+                        break
+        except CaseTimeout:
+            col.fail({"tree": P.to_json(tree), "seq": "", "state_id": 1}, "hang", f"pattern {P.show(tree)}: no result within 120 s")
+        nt = P.nontrivial(tree)
+        col.bulk(len(seqs), len(seqs) if nt else 0)
+        if nt and n_trees % 499 == 0:
+            col.sample({"tree": P.show(tree), "state_counter": 1, "sequences": f"all {len(seqs)} sequences up to length {max_len}"})
+    col.label("spine-family")
+
+
 def gen_random(col, seed, n):
-    strat = st.tuples(P.tree_strategy(8), st.text(alphabet="abc", max_size=20))
+    strat = st.tuples(P.tree_strategy(8), st.text(alphabet="abc", max_size=20), st.sampled_from([1, 1, 1, 2, 5, 10, 11, 99, 100, 1234]))
 
     def body(v):
-        tree, seq = v
+        tree, seq, sid = v
         labels = [f"rnd_size:{min(R.size(tree) // 4 * 4, 16)}"]
         if R.matches(tree, seq):
             labels.append("rnd_in_language")
-        col.eval({"tree": P.to_json(tree), "seq": seq}, nontrivial=P.nontrivial(tree), labels=labels)
+        col.eval({"tree": P.to_json(tree), "seq": seq, "state_id": sid}, nontrivial=P.nontrivial(tree), labels=labels + [f"state_counter:{'1' if sid == 1 else 'other'}"])
 
     run_given(body, strat, seed, n)
 
@@ -205,6 +276,14 @@ def plan(tier, seed):
         ("enum_trees", {"sizes": list(range(1, max_size + 1)), "part": p, "nparts": nparts, "max_len": max_len, "selftest": p == 0})
         for p in range(nparts)
     ]
+    if tier == "quick":
+        for o in range(8):
+            jobs.append(("enum_spines", {"ks": [2, 3], "stride": 32, "offset": o * 4 + 1, "max_len": 4}))
+    else:
+        for o in range(32):
+            jobs.append(("enum_spines", {"ks": [2, 3], "stride": 32, "offset": o, "max_len": 6}))
+        for o in range(16):
+            jobs.append(("enum_spines", {"ks": [4], "stride": 16 * 40, "offset": o, "max_len": 5}))
     n = 3000 if tier == "quick" else 60000
     for i in range(4):
         jobs.append(("gen_random", {"seed": shard_seed(seed, ID, i), "n": n // 4}))
